@@ -189,6 +189,7 @@ func (m *c09LendMon) block(dt time.Duration) {
 					m.rec.Violate("C09/safety/seized-while-safe/borrow/"+class+"/sweep", "a borrow at or below its liquidation threshold was seized", w)
 				}
 				m.rec.Distinct("C09-borrow-seize", class, b.PairID)
+				m.rec.Count("borrow_seizures_"+class, 1)
 			}
 			delete(m.survivedB, id)
 			delete(m.maxLenB, id)
@@ -361,6 +362,21 @@ func c09LendRun(t *testing.T, rec *ev.Rec, run int) {
 				gap = time.Duration(1+e.rnd.Intn(72)) * time.Hour
 			}
 			m.block(gap)
+		}
+	}
+	// slow ramp: collateral prices fall 1.5 % per block, so every position's ratio passes through the band just
+	// below and just above its own threshold with the sweep looking at it in every block
+	for i := 0; i < ev.Pick(45, 120) && !e.panicked; i++ {
+		for _, id := range e.u.Order {
+			if d := e.u.Assets[id].Denom; d == "uatom" || d == "uosmo" {
+				p, _ := e.u.Price(id)
+				e.u.SetPrice(id, p*985/1000+1, true)
+			}
+		}
+		m.block(6 * time.Second)
+		if i%5 == 0 { // new positions keep entering the band
+			e.txStep()
+			e.txStep()
 		}
 	}
 	// liveness probe: a market crash makes many positions unsafe at once; with no further user activity
